@@ -13,7 +13,7 @@ RULE = ("exhaustive box of (ns, nswin, overlap<nswin) triples sharded by nswin, 
         "a triple is non-trivial when it produces >= 2 windows; distinct = distinct triple "
         "(distinct_nontrivial counts them per shard and is summed over disjoint shards)")
 ASSUMPTIONS = ["numpy arithmetic is exact on the integer ranges used"]
-REQUIRED = {"triples": 1000, "interleaved_checked": 200, "splicing_sums_checked": 100, "valid_partitions_checked": 100, "nwin_checked": 1000}
+REQUIRED = {"triples": 1000, "interleaved_checked": 200, "splicing_sums_checked": 100, "valid_partitions_checked": 100, "nwin_checked": 1000, "repeat_queries_checked": 1000}
 CASE_TIMEOUT = 600.0
 
 
@@ -151,6 +151,31 @@ def check_triple(res, ns, nswin, overlap, WG, fs=30000.0):
                       f"{np.unique(once).tolist()} times")
         except Exception as e:
             res.exception("interleaved:exception", e, f"{T}")
+    # the answers are facts about (ns, nswin, overlap) and the arguments of the call, not about what the object was asked before: asked again
+    # after everything above - with another sampling rate, after the caller edited the arrays it was handed - every answer is the same
+    try:
+        fs2 = fs * 3.7 if fs != 1 else 30000.0
+        ts2 = wg.tscale(fs2)
+        exp2 = (first + last - 1) / 2 / fs2
+        res.check(ts2.shape == exp2.shape and np.allclose(ts2, exp2, rtol=1e-12, atol=0), "tscale:second-call-other-rate",
+                  f"{T}: tscale({fs2}) after tscale({fs}) on the same object gives {ts2[:3]}, window centres are {exp2[:3]}", counter="repeat_queries_checked")
+        ts2[:] = -1.0
+        ts3 = wg.tscale(fs)
+        exp = (first + last - 1) / 2 / fs
+        res.check(ts3.shape == exp.shape and np.allclose(ts3, exp, rtol=1e-12, atol=0), "tscale:after-caller-edit",
+                  f"{T}: tscale({fs}) after the caller overwrote an earlier result gives {ts3[:3]}, window centres are {exp[:3]}")
+        res.check(list(wg.firstlast) == fl and wg.nwin == n, "firstlast:second-pass", f"{T}: a second pass over firstlast / nwin gives a different answer")
+        if 2 * overlap <= nswin:
+            sp1 = list(wg.firstlast_splicing)
+            for _, _, amp in sp1:
+                amp[:] = 0
+            tot = np.zeros(ns)
+            for f, l, amp in wg.firstlast_splicing:
+                tot[f:l] += amp
+            res.check(np.max(np.abs(tot - 1)) <= 1e-12, "splicing:after-caller-edit",
+                      f"{T}: splicing amplitudes of a second pass, after the caller zeroed those of the first, sum to [{tot.min():.4f}, {tot.max():.4f}]")
+    except Exception as e:
+        res.exception("repeat:exception", e, f"{T}")
     return n
 
 
